@@ -12,14 +12,15 @@ import (
 	"harness/engine"
 )
 
-var c09QMenu = []string{"CCCAAAAA", "CCAAAAAN", "AAAAAAAA", "CGAANNAA", "ACAAGAAA"}
-var c09TMenu = []string{"AAAAAAAA", "CCAAAAAA", "CCCGAAAA", "CAAGAAAA", "CCCAAAAA", "NNCAAAAA", "CGAAGAAN"}
+// 12 columns: SNPs at positions 2 and 10/11 sort differently as strings ("A10C" < "A2C") than by position
+var c09QMenu = []string{"CCCAAAAAAAAA", "CCAAAAANAAAA", "AAAAAAAAAAAA", "CGAANNAAAAAA", "ACAAGAAAACAA", "ATAAAAAAAGCA"}
+var c09TMenu = []string{"AAAAAAAAAAAA", "CCAAAAAAAAAA", "CCCGAAAAAAAA", "CAAGAAAAAAAA", "CCCAAAAAAAAA", "NNCAAAAAAAAA", "CGAAGAANAAAA", "ACAAAAAAANAA", "ANAAAAAAACCA"}
 
-const c09Ref = "AAAAAAAA"
+const c09Ref = "AAAAAAAAAAAA"
 
 // targets of the Engine S scenarios: the last two tie on everything (a backlog of two records at the end of the input needs the first one to arrive last), so their output order is the
 // file order that the parallel FASTA conversion has to restore
-var c09STargets = []string{"CCCGAAAA", "CCAAAAAA", "CCAAAAAA"}
+var c09STargets = []string{"CCCGAAAAAAAA", "CCAAAAAAAAAA", "CCAAAAAAAAAA"}
 
 func c09Options() []udOpts {
 	base := []udOpts{{SizeTotal: 3}, {SizeUp: 1, SizeSide: 2, NoFill: true}, {DistAll: 2}, {DistPush: 1}, {SizeTotal: 5, DistAll: 3}, {DistUp: 1, DistDown: 2, DistSide: 3}}
@@ -158,7 +159,7 @@ func init() {
 	register(&Prop{
 		ID:    "C09",
 		Level: "model_checking",
-		Rule: "bounded-exhaustive relational check on the real code: every query set of 1..2 sequences (plus all 3-sequence sets over the first three) from a 5-sequence menu x every target file of 1..3 sequences from a 7-sequence menu (SNPs, shared SNPs, ambiguity tracts, a reference-identical target at every position) x 8 option sets (sizes, no-fill, dist-all, per-bin dists, dist-push, thresholds, ignore) x list/--table: the outputs for fasta/fasta, csv/csv, csv/fasta and fasta/csv (CSV produced by the real `updown list`) must be byte-identical with one row per query in query order; " +
+		Rule: "bounded-exhaustive relational check on the real code: every query set of 1..2 sequences (plus all 3-sequence sets over the first three) from a 6-sequence menu x every target file of 1..3 sequences from a 9-sequence menu (12 columns, so that SNP lists sort differently as strings than by position) (SNPs, shared SNPs, ambiguity tracts, a reference-identical target at every position) x 8 option sets (sizes, no-fill, dist-all, per-bin dists, dist-push, thresholds, ignore) x list/--table: the outputs for fasta/fasta, csv/csv, csv/fasta and fasta/csv (CSV produced by the real `updown list`) must be byte-identical with one row per query in query order; " +
 			"plus Engine S: 2 queries (all interleavings) and 3 queries (bounded preemptions) for the three CSV-involving combinations: every arrival order of the per-query results must give the fasta/fasta output. A case is one (queries, targets, options); non-trivial = the fasta/fasta run succeeded; each generated once",
 		Assumptions: []string{
 			"the relation compares runs of the real code; whether the fasta/fasta result itself is right is C08's subject",
